@@ -2911,3 +2911,40 @@ pub open spec fn desc_measure(w: Ranks, e: Option<NodeEdge>) -> nat {
     }
 }
 
+/// one step of `Traverse` rooted at `root`
+pub open spec fn trav_step<T>(s: Seq<Node<T>>, root: NodeId, e: NodeEdge) -> Option<NodeEdge> {
+    if e == NodeEdge::End(root) {
+        None
+    } else {
+        next_edge(s, e)
+    }
+}
+
+/// the first Start edge at or after e in the traversal (what `Descendants::next` looks for)
+pub open spec fn first_start<T>(s: Seq<Node<T>>, w: Ranks, root: NodeId, e: Option<NodeEdge>) -> Option<NodeEdge>
+    decreases desc_measure(w, e),
+{
+    match e {
+        None => None,
+        Some(NodeEdge::Start(n)) => e,
+        Some(NodeEdge::End(n)) => if desc_measure(w, trav_step(s, root, NodeEdge::End(n))) < desc_measure(w, e) {
+            first_start(s, w, root, trav_step(s, root, NodeEdge::End(n)))
+        } else {
+            None
+        },
+    }
+}
+
+pub proof fn lemma_desc_step<T>(s: Seq<Node<T>>, w: Ranks, root: NodeId, e: NodeEdge)
+    requires
+        links_ok(s),
+        ranked(s, w),
+        tgt_ok(s, Some(edge_node(e))),
+    ensures
+        trav_step(s, root, e) is Some ==> tgt_ok(s, Some(edge_node(trav_step(s, root, e)->0))),
+        e is End ==> desc_measure(w, trav_step(s, root, e)) < desc_measure(w, Some(e)),
+{
+    lemma_edge_inverse(s, e);
+    assert(ranked_at(s, w, edge_node(e).idx()));
+}
+
